@@ -82,6 +82,10 @@ func evMemFlushWait() InstrPred {
 		if findPath(after(callee, freeze), ef, base, isReturn) != nil {
 			return false
 		}
+		// … and a failed wait must be the helper's failure
+		if failedCallEscapes(callee, base, "(*leveldb.DB).compTriggerWait") != nil {
+			return false
+		}
 		return true
 	}
 }
